@@ -5,7 +5,7 @@
    [valid_image] (Model/Valid.v) is the independent reader.  [file_start]/[file_starts]/[end_of] are
    the offsets the file loop of Assemble (Ffs.place_files) gives to the files of a volume. *)
 From Fiano Require Import Base.Bytes Gen.Consts Model.Ffs Model.FfsGrammar Model.Edit Model.Valid Model.ValidInv
-  Proofs.FfsGrammarProofs Proofs.EditProofs Proofs.AsmProofs Proofs.ValidProofs Proofs.ValidFlatProofs.
+  Proofs.FfsGrammarProofs Proofs.EditProofs Proofs.AsmProofs Proofs.ValidProofs Proofs.ValidTreeProofs Proofs.ValidFlatProofs.
 Open Scope Z_scope.
 
 (* ---- same total size; an error writes nothing ---- *)
@@ -112,6 +112,25 @@ Theorem C02_pad_file_valid : forall vfv venc dec pol size b,
   v_file vfv venc dec b = true /\ all_eq pol (sub 0 24 b) = false /\ zlen b = size.
 Proof. exact pad_file_valid. Qed.
 Print Assumptions C02_pad_file_valid.
+
+(* the header GenSecHeader writes for a regenerated plain section (replace_pe32's result, UI,
+   version, depex), at the size threshold of the format: the 4-byte header with the 24-bit size as
+   long as 4 + |body| < 0xFFFFFF, and from 4 + |body| = 0xFFFFFF on the 8-byte header (size field
+   FF FF FF, type, 32-bit size 8 + |body|) - the size field FF FF FF is never written without the
+   32-bit size behind it; the reader accepts the section in both forms *)
+Theorem C02_section_header_threshold : forall h body,
+  s_gd h = None -> zlen body + 32 < 4294967296 -> s_type h <> 23 -> s_type h <> 2 ->
+  (4 + zlen body < 16777215 ->
+     snd (gen_sec_header h body) = le_enc 3 (4 + zlen body) ++ [s_type h] ++ body) /\
+  (16777215 <= 4 + zlen body ->
+     snd (gen_sec_header h body) = [255; 255; 255] ++ [s_type h] ++ le_enc 4 (8 + zlen body) ++ body) /\
+  v_sec0 (snd (gen_sec_header h body)) = true.
+Proof.
+  intros h body Hg Hb H23 H2.
+  destruct (gsh_plain_form h body Hg ltac:(lia)) as [A B]. split; [exact A|]. split; [exact B|].
+  apply gsh_v_sec0; auto. unfold gd_wf. rewrite Hg. exact I.
+Qed.
+Print Assumptions C02_section_header_threshold.
 
 (* the 16-bit sum of a rebuilt volume's header is zero *)
 Theorem C02_volume_header_checksum : forall pol ffs3 h buf files h' b,
